@@ -1,4 +1,200 @@
-pub fn run(_args: &[String]) -> i32 {
-    eprintln!("not implemented");
-    2
+//! gv query — editor queries (hover, `x.` completions, `Path::` completions) at many cursor positions of one text,
+//! plus the oracle the compile path provides: the type of every variable use / binder in the typed AST.
+//!
+//! request: {"id", "text", "positions": [[line, col], ..] | "all": true, "kinds": ["hover","dot","colon"], "oracle": bool}
+//! answer : {"id", "results": [{"l","c","hover": {"ok": s}|{"err": s}|{"panic": at}, "dot": [names]|null|{"panic"}, "colon": ..}], "oracle": [{"s","e","ty","what"}]}
+use std::path::Path;
+use std::time::Duration;
+
+use compiler::tast;
+use serde_json::{Value, json};
+
+use crate::util::{Guarded, emit, guarded, read_requests, strip_repo, take_panic};
+
+fn catch<T>(f: impl FnOnce() -> T) -> Result<T, Value> {
+    match std::panic::catch_unwind(std::panic::AssertUnwindSafe(f)) {
+        Ok(v) => Ok(v),
+        Err(_) => {
+            let (msg, at) = take_panic();
+            Err(json!({"panic": strip_repo(&at), "msg": msg}))
+        }
+    }
+}
+
+fn range_of(ptr: &Option<parser::syntax::MySyntaxNodePtr>) -> Option<(u32, u32)> {
+    ptr.as_ref().map(|p| {
+        let r = p.text_range();
+        (u32::from(r.start()), u32::from(r.end()))
+    })
+}
+
+fn walk_pat(p: &tast::Pat, out: &mut Vec<Value>) {
+    match p {
+        tast::Pat::PVar { name, ty, astptr } => {
+            if let Some((s, e)) = range_of(astptr) {
+                out.push(json!({"s": s, "e": e, "ty": ty.to_pretty(80), "what": "binder", "name": name}));
+            }
+        }
+        tast::Pat::PConstr { args, .. } => args.iter().for_each(|a| walk_pat(a, out)),
+        tast::Pat::PTuple { items, .. } => items.iter().for_each(|a| walk_pat(a, out)),
+        _ => {}
+    }
+}
+
+fn walk(e: &tast::Expr, out: &mut Vec<Value>) {
+    use tast::Expr::*;
+    match e {
+        EVar { name, ty, astptr } => {
+            if let Some((s, e)) = range_of(astptr) {
+                out.push(json!({"s": s, "e": e, "ty": ty.to_pretty(80), "what": "use", "name": name}));
+            }
+        }
+        EPrim { .. } | ETraitMethod { .. } | EDynTraitMethod { .. } | EInherentMethod { .. } => {}
+        EConstr { args, .. } => args.iter().for_each(|a| walk(a, out)),
+        ETuple { items, .. } | EArray { items, .. } => items.iter().for_each(|a| walk(a, out)),
+        EClosure { params, body, .. } => {
+            for p in params {
+                if let Some((s, e)) = range_of(&p.astptr) {
+                    out.push(json!({"s": s, "e": e, "ty": p.ty.to_pretty(80), "what": "closure-param", "name": p.name}));
+                }
+            }
+            walk(body, out)
+        }
+        ELet { pat, value, .. } => {
+            walk_pat(pat, out);
+            walk(value, out)
+        }
+        EBlock { exprs, .. } => exprs.iter().for_each(|a| walk(a, out)),
+        EMatch { expr, arms, .. } => {
+            walk(expr, out);
+            for a in arms {
+                walk_pat(&a.pat, out);
+                walk(&a.body, out);
+            }
+        }
+        EIf { cond, then_branch, else_branch, .. } => {
+            walk(cond, out);
+            walk(then_branch, out);
+            walk(else_branch, out)
+        }
+        EWhile { cond, body, .. } => {
+            walk(cond, out);
+            walk(body, out)
+        }
+        EGo { expr, .. } | EUnary { expr, .. } | EToDyn { expr, .. } => walk(expr, out),
+        ECall { func, args, .. } => {
+            walk(func, out);
+            args.iter().for_each(|a| walk(a, out))
+        }
+        EProj { tuple, .. } => walk(tuple, out),
+        EField { expr, field_name, ty, astptr } => {
+            if let Some((s, e)) = range_of(astptr) {
+                out.push(json!({"s": s, "e": e, "ty": ty.to_pretty(80), "what": "field", "name": field_name}));
+            }
+            walk(expr, out)
+        }
+        EBinary { lhs, rhs, .. } => {
+            walk(lhs, out);
+            walk(rhs, out)
+        }
+    }
+}
+
+fn oracle(path: &Path, text: &str) -> Value {
+    match compiler::pipeline::pipeline::compile(path, text) {
+        Ok(c) => {
+            let mut out = Vec::new();
+            for item in c.tast.toplevels.iter() {
+                match item {
+                    tast::Item::Fn(f) => walk(&f.body, &mut out),
+                    tast::Item::ImplBlock(b) => b.methods.iter().for_each(|f| walk(&f.body, &mut out)),
+                    _ => {}
+                }
+            }
+            Value::from(out)
+        }
+        Err(_) => Value::Null,
+    }
+}
+
+pub fn run(args: &[String]) -> i32 {
+    for req in read_requests(args) {
+        let id = req.get("id").cloned().unwrap_or(Value::Null);
+        let text = req["text"].as_str().unwrap_or("").to_string();
+        let dir = req.get("dir").and_then(|d| d.as_str()).unwrap_or("/nonexistent").to_string();
+        let want = |k: &str| req.get("kinds").and_then(|v| v.as_array()).is_none_or(|a| a.iter().any(|x| x.as_str() == Some(k)));
+        let (wh, wd, wc) = (want("hover"), want("dot"), want("colon"));
+        let want_oracle = req.get("oracle").and_then(|v| v.as_bool()).unwrap_or(false);
+        let mut positions: Vec<(u32, u32)> = Vec::new();
+        if req.get("all").and_then(|v| v.as_bool()).unwrap_or(false) {
+            // every byte offset of the text as (line, byte column), plus one column past each line end and one line past the end
+            let mut line = 0u32;
+            let mut col = 0u32;
+            for b in text.bytes() {
+                positions.push((line, col));
+                if b == b'\n' {
+                    positions.push((line, col + 1));
+                    line += 1;
+                    col = 0;
+                } else {
+                    col += 1;
+                }
+            }
+            positions.push((line, col));
+            positions.push((line, col + 1));
+            positions.push((line + 1, 0));
+            positions.push((line + 7, 3));
+            positions.push((u32::MAX, u32::MAX));
+            positions.push((0, u32::MAX));
+        }
+        if let Some(ps) = req.get("positions").and_then(|v| v.as_array()) {
+            for p in ps {
+                positions.push((p[0].as_u64().unwrap_or(0) as u32, p[1].as_u64().unwrap_or(0) as u32));
+            }
+        }
+        let limit = Duration::from_secs(req.get("limit_s").and_then(|v| v.as_u64()).unwrap_or(300));
+        let r = guarded(limit, move || {
+            let path = std::path::PathBuf::from(dir).join("main.gom");
+            let mut results = Vec::new();
+            for (l, c) in positions {
+                let mut o = json!({"l": l, "c": c});
+                if wh {
+                    o["hover"] = match catch(|| compiler::query::hover_type(&path, &text, l, c)) {
+                        Ok(Ok(s)) => json!({"ok": s}),
+                        Ok(Err(e)) => json!({"err": e}),
+                        Err(p) => p,
+                    };
+                }
+                if wd {
+                    o["dot"] = match catch(|| compiler::query::dot_completions(&path, &text, l, c)) {
+                        Ok(Some(items)) => Value::from(items.iter().map(|i| json!({"n": i.name, "k": format!("{:?}", i.kind), "d": i.detail})).collect::<Vec<_>>()),
+                        Ok(None) => Value::Null,
+                        Err(p) => p,
+                    };
+                }
+                if wc {
+                    o["colon"] = match catch(|| compiler::query::colon_colon_completions(&path, &text, l, c)) {
+                        Ok(Some(items)) => Value::from(items.iter().map(|i| json!({"n": i.name, "k": format!("{:?}", i.kind), "d": i.detail})).collect::<Vec<_>>()),
+                        Ok(None) => Value::Null,
+                        Err(p) => p,
+                    };
+                }
+                results.push(o);
+            }
+            let orc = if want_oracle {
+                catch(|| oracle(&path, &text)).unwrap_or(Value::Null)
+            } else {
+                Value::Null
+            };
+            json!({"results": results, "oracle": orc})
+        });
+        let mut out = match r {
+            Guarded::Done(v) => v,
+            Guarded::Panic { msg, at } => json!({"fatal": "panic", "msg": msg, "at": strip_repo(&at)}),
+            Guarded::Timeout => json!({"fatal": "timeout"}),
+        };
+        out["id"] = id;
+        emit(&out);
+    }
+    0
 }
